@@ -23,10 +23,22 @@ from vlib import props  # noqa: E402
 
 def main():
     ap = argparse.ArgumentParser()
-    ap.add_argument('pid')
+    ap.add_argument('pid', nargs='?')
+    ap.add_argument('--setup', action='store_true')
     ap.add_argument('--tier', default=os.environ.get('VERIF_TIER', 'quick'), choices=['quick', 'thorough'])
     ap.add_argument('--replay')
     a = ap.parse_args()
+    if a.setup:
+        # build the executor variants from the files on disk and parse every specification once
+        try:
+            for v in ('plain', 'asan', 'tsan'):
+                core.build(v)
+            r = core.sh('cd %s && for m in *.tla; do tla-sany $m > /dev/null 2>&1 || echo "PARSE-FAIL $m"; done' % core.SPEC)
+            print(r.stdout.strip() or 'setup ok')
+            return 1 if 'PARSE-FAIL' in r.stdout else 0
+        except core.MachineryError as e:
+            print('MACHINERY-ERROR setup: %s' % e)
+            return 2
     seed = int(os.environ.get('VERIF_SEED', '1') or 1)
     pid = a.pid
     if pid not in props.PROPS:
